@@ -519,6 +519,7 @@ def run_c04_ip(case, R):
 
     async def main(loop):
         w = IpWorld(loop)
+        w.acc.header_names = case.get("hdr", "title")
         reply = pairing_reply(state, err, case.get("extra"), case.get("order", "spec"))
 
         def hook(conn, req):
@@ -530,7 +531,7 @@ def run_c04_ip(case, R):
         w.acc.on_request = hook
         try:
             p = w.pairing
-            what = f"IP {op} state={state} error={err} extra={case.get('extra')} order={case.get('order')} http={case.get('http', 200)} content-type={case.get('ctype', 'exact')}"
+            what = f"IP {op} state={state} error={err} extra={case.get('extra')} order={case.get('order')} http={case.get('http', 200)} content-type={case.get('ctype', 'exact')} header-names={case.get('hdr', 'title')}"
             try:
                 if op == "add":
                     res = await p.add_pairing("other-controller", "07" * 32, "User")
@@ -569,6 +570,8 @@ def enum_c04_ip(tier):
                 for ct in HTTP_CTYPES:
                     if (http, ct) != (200, "exact"):
                         yield dict(c, http=http, ctype=ct)
+                for hdr in ("lower", "upper"):
+                    yield dict(c, http=http, hdr=hdr)
 
 
 def run_c04_ip_verify(case, R):
@@ -579,6 +582,7 @@ def run_c04_ip_verify(case, R):
 
     async def main(loop):
         w = IpWorld(loop)
+        w.acc.header_names = case.get("hdr", "title")
         ct = HTTP_CTYPES[case["ctype"]]
         w.acc.error_http = (case["http"], "X", ct[0], ct[1])
         w.acc.verify_policy = lambda conn: f"error-{case['step']}:{case['code']}"
@@ -606,6 +610,8 @@ def enum_c04_ip_verify(tier):
             for http in (200, 400, 470, 500):
                 for ct in HTTP_CTYPES:
                     yield {"step": step, "code": code, "http": http, "ctype": ct}
+                for hdr in ("lower", "upper"):
+                    yield {"step": step, "code": code, "http": http, "ctype": "exact", "hdr": hdr}
 
 
 C04_IP_LAYERS = [Layer("ip-pairings", run_c04_ip, enumerate=enum_c04_ip, exhaustive=True,
